@@ -29,6 +29,11 @@ type ExSpec struct {
 	SplitKeys bool `json:"split_keys,omitempty"`
 	// SelfSimilar: see Body
 	SelfSimilar bool `json:"self_similar,omitempty"`
+	// Collide: the header map also holds ONE field under two map keys that differ only in letter
+	// case ("X-Collide" / "x-collide", as a map filled by direct assignment can): 1 = with the
+	// same value, 2 = with different values. Both fold to one CBOR key, so the writer may refuse
+	// (WriteMayFail); what it must not do is report success for a malformed file.
+	Collide int `json:"collide,omitempty"`
 }
 
 // Body is BodyLen octets of filler; with SelfSimilar the body BEGINS with a complete small web
@@ -149,6 +154,10 @@ func Build(s *Spec) *bundle.Bundle {
 			for _, v := range variantKeyValues(e.Keys, e.SplitKeys) {
 				h.Add("Variant-Key", v)
 			}
+		}
+		if e.Collide > 0 {
+			h["X-Collide"] = []string{"same"}
+			h["x-collide"] = []string{map[int]string{1: "same", 2: "other"}[e.Collide]}
 		}
 		b.Exchanges = append(b.Exchanges, &bundle.Exchange{
 			Request:  bundle.Request{URL: mustURL(e.URL)},
@@ -326,8 +335,21 @@ func bodyLen(t *rapid.T, label string) int {
 // WriteMayFail: inputs the writer is free to refuse (the property is then vacuous) but, if it
 // writes them, the file must read back unchanged: header names or values with octets >= 0x80
 // (the reader insists on ASCII header fields).
+// HasCollide: some exchange's header map holds one field under two spellings (ExSpec.Collide).
+func (s *Spec) HasCollide() bool {
+	for i := range s.Exchanges {
+		if s.Exchanges[i].Collide > 0 {
+			return true
+		}
+	}
+	return false
+}
+
 func (s *Spec) WriteMayFail() (bool, string) {
 	for i := range s.Exchanges {
+		if s.Exchanges[i].Collide > 0 {
+			return true, fmt.Sprintf("the header map of %s holds one field under two spellings", s.Exchanges[i].URL)
+		}
 		for _, kv := range s.Exchanges[i].Headers {
 			for _, v := range append([]string{kv.Name}, kv.Values...) {
 				for j := 0; j < len(v); j++ {
@@ -445,6 +467,10 @@ func finish(t *rapid.T, s *Spec, dupNoVariants bool) *Spec {
 	// shuffle caller order
 	if len(s.Exchanges) > 1 {
 		s.Exchanges = rapid.Permutation(s.Exchanges).Draw(t, "order")
+	}
+	if len(s.Exchanges) > 0 && rapid.IntRange(0, 39).Draw(t, "collide") == 17 {
+		// one exchange of the bundle gets one header field under two spellings (see ExSpec.Collide)
+		s.Exchanges[rapid.IntRange(0, len(s.Exchanges)-1).Draw(t, "collide-at")].Collide = rapid.IntRange(1, 2).Draw(t, "collide-kind")
 	}
 	if s.Version == "b1" {
 		s.Primary = "https://a.example/primary"
